@@ -2,6 +2,7 @@ import SarpyModel.Drivers.Slice
 import SarpyModel.Drivers.Scatter
 import SarpyModel.Drivers.Poly
 import SarpyModel.Drivers.FieldFmt
+import SarpyModel.Drivers.Layout
 namespace Sarpy.Drivers
 
 def step (line : String) : String :=
@@ -11,6 +12,7 @@ def step (line : String) : String :=
   | "scatter" :: rest => (scatterStep rest).getD "bad-op"
   | "poly" :: rest => (polyStep rest).getD "bad-op"
   | "nitf" :: rest => (fieldStep rest).getD "bad-op"
+  | "layout" :: rest => (layoutStep rest).getD "bad-op"
   | _ => "bad-op"
 
 partial def loop (h : IO.FS.Stream) : IO Unit := do
